@@ -1,0 +1,57 @@
+//go:build verif
+
+// Contracts for package lisp (mal.go), read by /verif's VC generator (govc). Comment-only.
+package lisp
+
+//@ field lisp.Stepper(ast, ns) (cmd)
+//@   panics never
+//@   ensures 0 <= cmd && cmd <= 3
+
+//@ func EVAL(ctx, ast, env) (res, e)
+//@   requires validEnvVal(env)
+//@   panics never
+//@   loop 1 invariant validEnvVal(env)
+
+//@ func eval_ast(ctx, ast, env) (res, e)
+//@   requires validEnvVal(env)
+//@   panics never
+//@   ensures implies(e == nil && is(ast, List), is(res, List) && len(res.(List).Val) == len(ast.(List).Val))
+//@   loop 1 invariant len(lst) == rangeindex + 1
+
+//@ func do(ctx, ast, from, to, env) (res, e)
+//@   requires validEnvVal(env)
+//@   requires ast == nil || is(ast, List)
+//@   requires from >= 0 && (to == 0 || to == -1)
+//@   requires ast == nil || from <= len(ast.(List).Val)
+//@   panics never
+
+//@ func macroexpand(ctx, ast, env) (res, e)
+//@   requires validEnvVal(env)
+//@   panics never
+//@   hint e == nil && res == ast
+
+//@ func is_macro_call(ast, env) (r)
+//@   requires validEnvVal(env)
+//@   panics never
+//@   assigns nothing
+//@   ensures implies(r, is(ast, List) && len(ast.(List).Val) > 0 && is(ast.(List).Val[0], Symbol))
+//@   ensures implies(r, lookupOK(ghost(envW), env.(*Env), ast.(List).Val[0].(Symbol).Val) && is(lookupV(ghost(envW), env.(*Env), ast.(List).Val[0].(Symbol).Val), MalFunc))
+
+//@ func quasiquote(ast) (r)
+//@   panics never
+
+//@ func qq_loop(xs) (r)
+//@   panics never
+
+//@ func starts_with(xs, sym) (r)
+//@   panics never
+//@   pure
+//@   ensures r == (len(xs) > 0 && is(xs[0], Symbol) && xs[0].(Symbol).Val == sym)
+
+//@ func first(list) (r)
+//@   panics never
+//@   pure
+//@   ensures implies(r != "", is(list, List) && len(list.(List).Val) > 0 && is(list.(List).Val[0], Symbol) && r == list.(List).Val[0].(Symbol).Val)
+
+//@ func malRecover(err) ()
+//@   inline
